@@ -6,6 +6,19 @@ package mldsa
 // VerifParams is the unexported parameter type.
 type VerifParams = params
 
+// VerifPar returns the parameter set 44 / 65 / 87 under its (unexported) type, for the seam functions below.
+func VerifPar(inst int) *VerifParams {
+	switch inst {
+	case 44:
+		return MLDSA44
+	case 65:
+		return MLDSA65
+	case 87:
+		return MLDSA87
+	}
+	panic("verif: unknown ML-DSA parameter set")
+}
+
 const (
 	VerifQ      = q
 	VerifD      = d
